@@ -7,18 +7,72 @@ sorted: no row of the result comes strictly before an earlier one.
 namespace SqlFilter
 open Ak
 
+theorem natsLt_irrefl : ∀ (a : List Nat), natsLt a a = false
+  | [] => rfl
+  | c :: cs => by simp [natsLt, natsLt_irrefl cs]
+
+theorem natsLt_trans : ∀ (a b c : List Nat), natsLt a b = true → natsLt b c = true → natsLt a c = true
+  | [], [], _, h, _ => by simp [natsLt] at h
+  | [], _ :: _, [], _, h => by simp [natsLt] at h
+  | [], _ :: _, _ :: _, _, _ => by simp [natsLt]
+  | _ :: _, [], _, h, _ => by simp [natsLt] at h
+  | _ :: _, _ :: _, [], _, h => by simp [natsLt] at h
+  | x :: xs, y :: ys, z :: zs, h1, h2 => by
+    simp only [natsLt] at h1 h2 ⊢
+    by_cases hxy : x < y
+    · by_cases hyz : y < z
+      · have : x < z := by omega
+        simp [this]
+      · simp only [hyz, if_false] at h2
+        by_cases hzy : z < y
+        · simp [hzy] at h2
+        · have : x < z := by omega
+          simp [this]
+    · simp only [hxy, if_false] at h1
+      by_cases hyx : y < x
+      · simp [hyx] at h1
+      · simp only [hyx, if_false] at h1
+        by_cases hyz : y < z
+        · have : x < z := by omega
+          simp [this]
+        · simp only [hyz, if_false] at h2
+          by_cases hzy : z < y
+          · simp [hzy] at h2
+          · simp only [hzy, if_false] at h2
+            have h3 : ¬ x < z := by omega
+            have h4 : ¬ z < x := by omega
+            simp only [h3, h4, if_false]
+            exact natsLt_trans xs ys zs h1 h2
+
+theorem natsLt_total : ∀ (a b : List Nat), a ≠ b → natsLt a b = true ∨ natsLt b a = true
+  | [], [], h => absurd rfl h
+  | [], _ :: _, _ => by simp [natsLt]
+  | _ :: _, [], _ => by simp [natsLt]
+  | x :: xs, y :: ys, h => by
+    simp only [natsLt]
+    by_cases hxy : x < y
+    · simp [hxy]
+    · by_cases hyx : y < x
+      · simp [hyx]
+      · have hxe : x = y := by omega
+        subst hxe
+        have : xs ≠ ys := fun e => h (by rw [e])
+        simpa [hxy] using natsLt_total xs ys this
+
 theorem vLt_irrefl (a : Value) : vLt a a = false := by
-  cases a <;> simp [vLt, strLt_irrefl]
+  cases a <;> simp [vLt, strLt_irrefl, natsLt_irrefl]
 
 theorem vLt_trans (a b c : Value) (h1 : vLt a b = true) (h2 : vLt b c = true) : vLt a c = true := by
   cases a <;> cases b <;> cases c <;> simp [vLt] at h1 h2 ⊢
   · omega
   · exact strLt_trans _ _ _ h1 h2
+  · exact natsLt_trans _ _ _ h1 h2
 
 theorem vLt_total (a b : Value) (h : a ≠ b) : vLt a b = true ∨ vLt b a = true := by
   cases a <;> cases b <;> simp [vLt] at h ⊢
   · omega
   · exact strLt_total _ _ h
+  · exact natsLt_total _ _ h
 
 theorem vLt_asymm (a b : Value) (h : vLt a b = true) : vLt b a = false := by
   cases hb : vLt b a with
